@@ -111,7 +111,10 @@ class Sim:
         if self.policy == "pct":
             k = int(sched.get("k", 2))
             horizon = max(1, int(sched.get("horizon", 2000)))
-            self.pct_points = set(self.rng.randrange(horizon) for _ in range(k))
+            self.pct_offsets = sorted(set(self.rng.randrange(horizon) for _ in range(k)))
+            # with sched["arm"] the change points are counted from the moment the workload calls
+            # pct_arm() (e.g. when it puts a line in flight), not from the start of the run
+            self.pct_points = set() if sched.get("arm") else set(self.pct_offsets)
         self.tracing = self.policy != "serial" and bool(self.traced_files)
         self.stats = {}
 
@@ -166,6 +169,11 @@ class Sim:
         if self.pre_prob > 0.0:
             return self.rng.random() < self.pre_prob
         return False
+
+    def pct_arm(self):
+        """Count the PCT change points from here (no-op for other policies)."""
+        if self.pct_points is not None and self.forced_pre is None:
+            self.pct_points = {self.line_events + off for off in self.pct_offsets}
 
     def decisions(self):
         return {"policy": "forced", "pre": list(self.rec_pre),
@@ -262,11 +270,18 @@ class Sim:
             rec.ready_seq = self.ready_seq
 
     def call_at(self, when, fn):
-        """Schedule fn() (runs inside the scheduler, must not block)."""
+        """Schedule fn() (runs inside the scheduler, must not block).  Instants are kept on a
+        nanosecond grid so that periodic activities with commensurable periods (the 20 ms poll
+        loop, the 10 s save timer) really do fall on the same instant, as they can in real time."""
+        when = round(when, 9)
         self.seq += 1
         token = [False]
         heapq.heappush(self.heap, (when, self.seq, token, fn))
         return token
+
+    def events_within(self, slack):
+        """Distinct times of the pending events in (now, now+slack], ascending."""
+        return sorted({when for when, _seq, token, _fn in self.heap if not token[0] and self.now < when <= self.now + slack})
 
     def _pick_next(self, cur):
         """Choose who runs next.  cur is the thread giving up the baton."""
@@ -620,6 +635,17 @@ class SimTimer:
 
     def _run(self):
         self.finished.wait(self.interval)
+        sim = CURRENT
+        slack = (sim.sched or {}).get("timer_slack", 0) if sim is not None else 0
+        if slack and not self.finished.is_set():
+            # a Timer is never punctual: with sched["timer_slack"] it may oversleep to the wake-up of
+            # something else within the slack (a recorded choice), so that timer work and e.g. the poll
+            # loop start at the same instant and the scheduler decides how they interleave
+            cands = sim.events_within(slack)
+            pick = sim.choose("timer_slack", len(cands) + 1)
+            if pick:
+                sim.count("timers_coalesced")
+                self.finished.wait(cands[pick - 1] - sim.now)
         if not self.finished.is_set():
             self.fired = True
             self.function(*self.args, **self.kwargs)
